@@ -318,7 +318,7 @@ func (tr *trans) binop(x *ssa.BinOp, st State) {
 		t := app(op, a, b)
 		if lo, hi, ok := intRange(x.Type()); ok {
 			if tr.fc != nil && tr.fc.Overflow {
-				tr.oblige("overflow", tr.srcText(x.Pos())+":"+x.X.Name()+x.Op.String()+x.Y.Name(), implies(tr.reach[tr.curB.Index], and(app("<=", lo, t), app("<=", t, hi))), x.Pos())
+				tr.oblige("overflow", tr.srcText(x.Pos())+":"+x.Op.String(), implies(tr.reach[tr.curB.Index], and(app("<=", lo, t), app("<=", t, hi))), x.Pos())
 			} else if tr.fc != nil && tr.fc.Opts["wraps"] == "true" {
 				// modular arithmetic
 				if isUnsigned(x.Type()) {
